@@ -1005,7 +1005,10 @@ def shrink(env, attr, init, prog, created=False):
 # ---------------------------------------------------------------------------------------------------------------------
 
 def report_result(ctx, env, attr, init, prog, res, facts, created=False, label='random'):
-    if res.losses:
+    if res.losses and len(ctx.violations) >= 25:
+        # already 25 distinct concrete failing inputs reported: further losing programs are counted, not minimised (time)
+        ctx.count('loss:counted only (25 minimal failing inputs already reported)')
+    elif res.losses:
         small = shrink(env, attr, init, prog, created)
         r2 = execute(env, attr, init, small, created)
         loss = (r2.losses or res.losses)[0]
@@ -1377,7 +1380,7 @@ def run(ctx):
         if not tables['wrapsAll'] and not lost:
             ctx.divergence('the generated table says some stored containers stay unwrapped but no witness loses a change on the real code', facts['iterUnwrapped'])
     rng = ctx.rng
-    nprog = ctx.scale(260, 8000)
+    nprog = ctx.scale(260, 6000)
     batch = []
     for i in range(nprog):
         attr = rng.choice(['data'] * 4 + ['vdata'] * 4 + ['odata', 'ldata', 'arr', 'sarr', 'varr', 'vsarr', 'larr'])
